@@ -279,6 +279,28 @@ func execC10(t *testing.T, p *sim.Program, c *sim.Ctx) {
 				c.Fail("signature-format", i, op.K, "unexpected signature encoding %x", sig)
 				return
 			}
+			// the (h *big.Int, S []byte) entry points: the same signature must verify there, and a signature made
+			// through sm9.Sign must verify through both entry-point families
+			hBig := new(big.Int).SetBytes(tree.Children[0].Content)
+			if hBig.BitLen() <= 248 {
+				c.Hit("probe:sm9-signature-h-with-leading-zero-byte")
+			}
+			if !sm9.Verify(spub, u.uid, u.hidS, msg, hBig, tree.Children[1].Content[1:]) {
+				c.Fail("honest-signature-rejected", i, op.K, "sm9.Verify (h as *big.Int, %d bits) rejects the signature that VerifyASN1 accepts", hBig.BitLen())
+				return
+			}
+			if op.Int(1)%3 == 0 {
+				h2, s2, err := sm9.Sign(rd(op.Int(1), "sig2"), u.sign, msg)
+				if err != nil {
+					c.Fail("sign-failed", i, op.K, "sm9.Sign: %v", err)
+					return
+				}
+				c.Out("sig2", s2)
+				if !sm9.Verify(spub, u.uid, u.hidS, msg, h2, s2) {
+					c.Fail("honest-signature-rejected", i, op.K, "sm9.Verify rejects the output of sm9.Sign (h has %d bits)", h2.BitLen())
+					return
+				}
+			}
 			hOff := tree.Children[0].Off + tree.Children[0].HdrLen
 			sOff := tree.Children[1].Off + tree.Children[1].HdrLen + 2 // skip unused-bits and point-format bytes
 			valuePos := func(k int) int {
